@@ -40,6 +40,11 @@ pub const SYNACK_RESEND_INTERNAL: Duration = Duration::from_millis(200);
 // u16 SeqNrs wrap around. If they are too far apart, this is used to detect if they wrapped or not.
 pub const WRAP_TOLERANCE: u16 = 32767;
 
+// The segment queue (sent but unacknowledged, plus not yet sent) is addressed with 16-bit sequence
+// number arithmetic. Keep it well within WRAP_TOLERANCE however small the segments are (Nagle
+// disabled and one-byte writes make one-byte segments).
+pub const MAX_TX_SEGMENTS: usize = 16384;
+
 pub const CONGESTION_TRACING_LOG_LEVEL: Level = Level::DEBUG;
 pub const RTTE_TRACING_LOG_LEVEL: Level = Level::TRACE;
 pub const RECOVERY_TRACING_LOG_LEVEL: Level = Level::TRACE;
